@@ -99,7 +99,8 @@ func init() {
 				c09String(c, s)
 			default:
 				r := core.NewRand(c.P.Seed, "C09in", idx)
-				c09Input(c, gen.Hostile(r, nil))
+				_ = r
+				c09Input(c, genParseCase(c.P.Seed, "C09gen", idx, 50).Src)
 			}
 		},
 		RunWitness: func(c *core.Ctx, w core.Witness) { c09Input(c, w.Src) },
